@@ -114,3 +114,167 @@ theorem baseAngle_inv {a : Angle F} (ha : a.Inv) : a.baseAngle.Inv := ha
 
 end Angle
 end GeonumModel
+
+namespace GeonumModel
+open FloatLike FloatSpec
+variable {F : Type} [FloatSpec F]
+namespace Angle
+
+theorem rep_int {z : ℤ} (h : |z| < 2 ^ 53) : Rep (F := F) (z : ℝ) := by
+  rcases le_total 0 z with hz | hz
+  · have : (z.toNat : ℤ) = z := Int.toNat_of_nonneg hz
+    have hlt : z.toNat < 2 ^ 53 := by
+      have : (z.toNat : ℤ) < 2 ^ 53 := by rw [this]; rwa [abs_of_nonneg hz] at h
+      exact_mod_cast this
+    have := rep_nat (F := F) hlt
+    have e : ((z.toNat : ℕ) : ℝ) = (z : ℝ) := by exact_mod_cast congrArg (Int.cast (R := ℝ)) ‹(z.toNat : ℤ) = z›
+    rwa [e] at this
+  · have hn : 0 ≤ -z := by omega
+    have : ((-z).toNat : ℤ) = -z := Int.toNat_of_nonneg hn
+    have hlt : (-z).toNat < 2 ^ 53 := by
+      have : ((-z).toNat : ℤ) < 2 ^ 53 := by rw [this]; rw [abs_of_nonpos hz] at h; exact h
+      exact_mod_cast this
+    have h1 := rep_neg (F := F) (rep_nat (F := F) hlt)
+    have e : -(((-z).toNat : ℕ) : ℝ) = (z : ℝ) := by
+      have : (((-z).toNat : ℤ) : ℝ) = ((-z : ℤ) : ℝ) := by rw [‹((-z).toNat : ℤ) = -z›]
+      push_cast at this ⊢; linarith
+    rwa [e] at h1
+
+/-- `Angle::new(i as f64, 2.0)` for a NEGATIVE integer `i`: the fast path lands on blade `i + 4·⌈(−i+3)/4⌉ ∈ {3,4,5,6}`,
+    congruent to `i` modulo 4, remainder literally `0.0` -/
+theorem new_negInt_two (i : ℤ) (hneg : i < 0) (hbig : |i| < 2 ^ 50) :
+    ∃ k : ℕ, Angle.new (FloatLike.ofInt i : F) two = ⟨zero, k⟩ ∧ (k : ℤ) = i + 4 * ((-i + 3 + 3) / 4) ∧
+      3 ≤ k ∧ k ≤ 6 ∧ (k : ℤ) % 4 = i % 4 := by
+  have h53 : |i| < 2 ^ 53 := lt_trans hbig (by norm_num)
+  obtain ⟨hfi, hvi⟩ := ofInt_spec (F := F) (i := i) h53
+  obtain ⟨hff, hfz⟩ := fract_spec hfi
+  have hfr : feq (FloatLike.fract (FloatLike.ofInt i : F)) zero = true := by
+    rw [feq_spec hff fin_zero, val_zero, hfz]; exact ⟨i, hvi⟩
+  have hl : flt (FloatLike.ofInt i : F) zero = true := by
+    rw [flt_spec hfi fin_zero, hvi, val_zero]; exact_mod_cast hneg
+  have hir : (i : ℝ) < 0 := by exact_mod_cast hneg
+  have hile : (i : ℝ) ≤ -1 := by exact_mod_cast (by omega : i ≤ -1)
+  have hiabs : |(i : ℝ)| < 2 ^ 50 := by exact_mod_cast hbig
+  rw [abs_of_neg hir] at hiabs
+  -- −p + 3
+  obtain ⟨hfn, hvn⟩ := fneg_spec hfi
+  rw [hvi] at hvn
+  have hr3 : Rep (F := F) (((-i + 3 : ℤ)) : ℝ) := rep_int (by
+    rw [abs_of_nonneg (by omega)]; have : -i < 2 ^ 50 := by rw [abs_of_neg hneg] at hbig; exact hbig
+    omega)
+  obtain ⟨hfa, hva⟩ := fadd_spec hfn (fin_three (F := F)) (by
+    rw [hvn, val_three]; apply inRange_of_abs_le_2p60
+    rw [abs_of_nonneg (by linarith)]
+    have : (2:ℝ) ^ 50 + 3 ≤ 2 ^ 60 := by norm_num
+    linarith)
+  rw [hvn, val_three] at hva
+  have e3 : -(i : ℝ) + 3 = ((-i + 3 : ℤ) : ℝ) := by push_cast; ring
+  rw [e3, rnd_rep hr3] at hva
+  -- /4 : exact (a quarter-integer)
+  have hq4 : Rep (F := F) (((-i + 3 : ℤ) : ℝ) / 4) := by
+    have h := rep_scale (F := F) (x := ((-i + 3 : ℤ) : ℝ)) (-2) hr3
+    have e : ((-i + 3 : ℤ) : ℝ) * (2:ℝ) ^ (-2 : ℤ) = ((-i + 3 : ℤ) : ℝ) / 4 := by
+      rw [zpow_neg]; norm_num; ring
+    rw [e] at h
+    have hpos : (4:ℝ) ≤ ((-i + 3 : ℤ) : ℝ) := by push_cast; linarith
+    have habs : |((-i + 3 : ℤ) : ℝ) / 4| = ((-i + 3 : ℤ) : ℝ) / 4 := abs_of_nonneg (by linarith)
+    apply h
+    · rw [habs]; have := inv_two_pow_1000_small; generalize (1:ℝ) / 2 ^ 1000 = t at *; linarith
+    · rw [habs]
+      have : ((-i + 3 : ℤ) : ℝ) / 4 ≤ 2 ^ 50 := by push_cast; linarith
+      have : (2:ℝ) ^ 50 ≤ 2 ^ 1000 := pow_le_pow_right₀ (by norm_num) (by norm_num)
+      generalize (2:ℝ) ^ 1000 = t at *; linarith
+  obtain ⟨hfd, hvd⟩ := fdiv_spec hfa (fin_four (F := F)) (by rw [val_four]; norm_num) (by
+    rw [hva, val_four]; apply inRange_of_abs_le_2p60
+    rw [abs_of_nonneg (by push_cast; linarith)]
+    have : (2:ℝ) ^ 50 + 3 ≤ 2 ^ 60 := by norm_num
+    push_cast; linarith)
+  rw [hva, val_four, rnd_rep hq4] at hvd
+  -- ceil
+  obtain ⟨hfc, hvc⟩ := ceil_spec hfd
+  rw [hvd] at hvc
+  set j : ℤ := ⌈((-i + 3 : ℤ) : ℝ) / 4⌉ with hj
+  have hjeq : j = (-i + 3 + 3) / 4 := by
+    rw [hj]
+    have : ((-i + 3 : ℤ) : ℝ) / 4 = (((-i + 3 : ℤ)) : ℚ) / ((4 : ℤ) : ℚ) := by push_cast; ring
+    rw [Int.ceil_eq_iff]
+    have hd : ((-i + 3 + 3) / 4 : ℤ) * 4 ≤ -i + 3 + 3 ∧ -i + 3 + 3 < ((-i + 3 + 3) / 4 + 1) * 4 := by omega
+    constructor
+    · have : (((-i + 3 + 3) / 4 : ℤ) : ℝ) * 4 < ((-i + 3 : ℤ) : ℝ) + 4 := by
+        have := hd.1; have h2 : (((-i + 3 + 3) / 4 : ℤ) : ℝ) * 4 ≤ ((-i + 3 + 3 : ℤ) : ℝ) := by exact_mod_cast this
+        push_cast at h2 ⊢; linarith
+      push_cast at this ⊢; linarith
+    · have : ((-i + 3 : ℤ) : ℝ) ≤ (((-i + 3 + 3) / 4 : ℤ) : ℝ) * 4 := by
+        have h3 : -i + 3 ≤ ((-i + 3 + 3) / 4) * 4 := by omega
+        exact_mod_cast h3
+      push_cast at this ⊢; linarith
+  have hj0 : 1 ≤ j := by rw [hjeq]; omega
+  have hjb : j ≤ 2 ^ 49 := by rw [hjeq]; rw [abs_of_neg hneg] at hbig; omega
+  -- ×4
+  have hr4j : Rep (F := F) ((j : ℝ) * 4) := by
+    have := rep_int (F := F) (z := j * 4) (by rw [abs_of_nonneg (by omega)]; omega)
+    push_cast at this; exact this
+  obtain ⟨hfm, hvm⟩ := fmul_spec hfc (fin_four (F := F)) (by
+    rw [hvc, val_four]; apply inRange_of_abs_le_2p60
+    have : (j : ℝ) ≤ 2 ^ 49 := by exact_mod_cast hjb
+    have : (0:ℝ) ≤ j := by exact_mod_cast (by omega : (0:ℤ) ≤ j)
+    rw [abs_of_nonneg (by positivity)]
+    have : (2:ℝ) ^ 49 * 4 ≤ 2 ^ 60 := by norm_num
+    nlinarith)
+  rw [hvc, val_four, rnd_rep hr4j] at hvm
+  -- p + full
+  have hsumz : 0 ≤ i + j * 4 := by rw [hjeq]; omega
+  have hrs : Rep (F := F) (((i + j * 4 : ℤ)) : ℝ) := rep_int (by
+    rw [abs_of_nonneg hsumz]; rw [hjeq]; rw [abs_of_neg hneg] at hbig; omega)
+  obtain ⟨hfs, hvs⟩ := fadd_spec hfi hfm (by
+    rw [hvi, hvm]; apply inRange_of_abs_le_2p60
+    have h1 : ((i + j * 4 : ℤ) : ℝ) = (i : ℝ) + (j : ℝ) * 4 := by push_cast; ring
+    rw [← h1, abs_of_nonneg (by exact_mod_cast hsumz)]
+    have : i + j * 4 ≤ 6 := by rw [hjeq]; omega
+    have : ((i + j * 4 : ℤ) : ℝ) ≤ 6 := by exact_mod_cast this
+    have : (6:ℝ) ≤ 2 ^ 60 := by norm_num
+    linarith)
+  rw [hvi, hvm] at hvs
+  have e5 : (i : ℝ) + (j : ℝ) * 4 = ((i + j * 4 : ℤ) : ℝ) := by push_cast; ring
+  rw [e5, rnd_rep hrs] at hvs
+  have hle6 : i + j * 4 ≤ 6 := by rw [hjeq]; omega
+  have hge3 : 3 ≤ i + j * 4 := by rw [hjeq]; omega
+  have hus : toUsize (fadd (FloatLike.ofInt i : F) (fmul (FloatLike.ceil (fdiv (fadd (fneg (FloatLike.ofInt i : F)) three) four)) four))
+      = (i + j * 4).toNat := by
+    rw [toUsize_spec hfs (by rw [hvs]; exact_mod_cast hsumz) (by
+      rw [hvs]; have : ((i + j * 4 : ℤ) : ℝ) ≤ 6 := by exact_mod_cast hle6
+      have : (6:ℝ) < 2 ^ 64 := by norm_num
+      linarith), hvs, ← Int.floor_toNat, Int.floor_intCast]
+  refine ⟨(i + j * 4).toNat, ?_, ?_, ?_, ?_, ?_⟩
+  · unfold Angle.new newFast
+    simp [feq_two_two, hfr, hl, hus]
+  · rw [Int.toNat_of_nonneg hsumz, hjeq]; ring
+  · have : (3:ℤ) ≤ ((i + j * 4).toNat : ℤ) := by rw [Int.toNat_of_nonneg hsumz]; exact hge3
+    exact_mod_cast this
+  · have : ((i + j * 4).toNat : ℤ) ≤ 6 := by rw [Int.toNat_of_nonneg hsumz]; exact hle6
+    exact_mod_cast this
+  · rw [Int.toNat_of_nonneg hsumz]; omega
+
+/-- `Angle::new(i as f64, 2.0)` for a non-negative integer -/
+theorem new_nonnegInt_two (i : ℤ) (h0 : 0 ≤ i) (hbig : |i| < 2 ^ 50) :
+    Angle.new (FloatLike.ofInt i : F) two = ⟨zero, i.toNat⟩ := by
+  have h53 : |i| < 2 ^ 53 := lt_trans hbig (by norm_num)
+  obtain ⟨hfi, hvi⟩ := ofInt_spec (F := F) (i := i) h53
+  obtain ⟨hff, hfz⟩ := fract_spec hfi
+  have hfr : feq (FloatLike.fract (FloatLike.ofInt i : F)) zero = true := by
+    rw [feq_spec hff fin_zero, val_zero, hfz]; exact ⟨i, hvi⟩
+  have hnl : flt (FloatLike.ofInt i : F) zero = false := by
+    rw [Bool.eq_false_iff]; intro h
+    rw [flt_spec hfi fin_zero, hvi, val_zero] at h
+    have : (0:ℝ) ≤ i := by exact_mod_cast h0
+    linarith
+  have hus : toUsize (FloatLike.ofInt i : F) = i.toNat := by
+    rw [toUsize_spec hfi (by rw [hvi]; exact_mod_cast h0) (by
+      rw [hvi]; have : (i:ℝ) < 2 ^ 50 := by rw [abs_of_nonneg h0] at hbig; exact_mod_cast hbig
+      have : (2:ℝ) ^ 50 < 2 ^ 64 := by norm_num
+      linarith), hvi, ← Int.floor_toNat, Int.floor_intCast]
+  unfold Angle.new newFast
+  simp [feq_two_two, hfr, hnl, hus]
+
+end Angle
+end GeonumModel
